@@ -14,7 +14,7 @@ import z3
 
 from mdvc import core
 from mdvc.core import Unsupported
-from mdvc.pyinterp import Namespace, Obj
+from mdvc.pyinterp import Namespace, Obj, PyExc
 from mdvc.tarr import KeyTok, TArr, fresh_buf
 from mdvc.verify import contract
 
@@ -397,3 +397,37 @@ def _join_mixed_list(ctx, case):
 
 _LIST_CASES = [(s, o) for s in (True, False) for o in ((True, True), (True, False), (False, True), (False, False))]
 contract("C03", "mdtraj/core/trajectory.py", "Trajectory.join(list)", cases=_LIST_CASES, replay="ops")(_join_mixed_list)
+
+
+# ---------------------------------------------------------------------------------------------
+# the remaining field setters: a value of the wrong frame count is refused and nothing changes; an accepted one is stored
+SETTER_CASES = [(f, ok) for f in ("time", "unitcell_lengths", "unitcell_angles") for ok in ("right-shape", "wrong-frame-count")]
+
+
+@contract("C03", "mdtraj/core/trajectory.py", "Trajectory.time|unitcell_lengths|unitcell_angles(setters)", cases=SETTER_CASES, replay="ops")
+def field_setters(ctx, case):
+    field, ok = case
+    install(ctx)
+    F, G = ctx.int("F"), ctx.int("G")
+    ctx.assume(F >= 2, G >= 1, G != F)
+    t, mod = TM.make_traj(ctx, F, 5)
+    with_traces(t)
+    before = dict(t.fields)
+    n = F if ok == "right-shape" else G
+    new = TArr("new_" + field, shape=(n,) if field == "time" else (n, 3))
+    try:
+        ctx.interp.setattr(t, field, new)
+        raised = None
+    except PyExc as e:
+        raised = e
+    priv = "_" + field
+    if ok == "right-shape":
+        ctx.ensure("accepted", raised is None)
+        ctx.ensure("field-is-the-assigned-value", raised is None and same_value(t.fields[priv], new))
+    else:
+        ctx.ensure("wrong-frame-count-refused-with-ValueError", raised is not None and raised.name == "ValueError")
+        ctx.ensure("refused=>field-unchanged", t.fields[priv] is before[priv])
+    for k in ("_xyz", "_time", "_unitcell_lengths", "_unitcell_angles", "_rmsd_traces"):
+        if k != priv:
+            ctx.ensure(f"other-field-{k}-untouched", t.fields[k] is before[k])
+    ctx.ensure("inv_traj:cache-clause", cache_ok(t))
